@@ -22,13 +22,13 @@ Definition ann_jitunion (l : nat) : annot :=
   | 1%nat => ALoop [("j", KInt); ("ct", KInt); ("newstart", KArr); ("newend", KArr)]
                    (fun st0 st => getZ st0 "j" <= getZ st "j" <= getZ st0 "n"
                                   /\ 0 <= getZ st "ct" <= getZ st "i" + getZ st "j")
-  | 2%nat => ALoop [("i", KInt); ("j", KInt); ("newend", KArr)]
+  | 5%nat => ALoop [("i", KInt); ("j", KInt); ("newend", KArr)]
                    (fun st0 st => getZ st0 "i" <= getZ st "i" <= getZ st0 "m"
                                   /\ getZ st0 "j" <= getZ st "j" <= getZ st0 "n")
-  | 3%nat => ALoop [("i", KInt); ("ct", KInt); ("newstart", KArr); ("newend", KArr)]
+  | 11%nat => ALoop [("i", KInt); ("ct", KInt); ("newstart", KArr); ("newend", KArr)]
                    (fun st0 st => 0 <= getZ st "i" <= getZ st0 "m"
                                   /\ 0 <= getZ st "ct" <= getZ st "i" + getZ st "j")
-  | 4%nat => ALoop [("j", KInt); ("ct", KInt); ("newstart", KArr); ("newend", KArr)]
+  | 12%nat => ALoop [("j", KInt); ("ct", KInt); ("newstart", KArr); ("newend", KArr)]
                    (fun st0 st => 0 <= getZ st "j" <= getZ st0 "n"
                                   /\ 0 <= getZ st "ct" <= getZ st "i" + getZ st "j")
   | _ => ANone
